@@ -16,7 +16,13 @@ RULE = ("filter definitions from the documented condition kinds (header fallback
 
 
 def unquote(tok):
-    assert tok[:1] == b'"' and tok[-1:] == b'"'
+    """the string value a token denotes (RFC 5228 §2.4.2): quoted string, or `text:` multi-line literal with dot-unstuffing"""
+    if tok[:5].lower() == b"text:":
+        body = tok[tok.index(b"\n") + 1:]
+        body = body[:-2] if body.endswith(b".\r") else body[:-1]
+        return b"".join(l[1:] if l.startswith(b".") else l for l in body.splitlines(keepends=True))
+    if not (tok[:1] == b'"' and tok[-1:] == b'"' and len(tok) >= 2):
+        return None
     body = tok[1:-1]
     out = bytearray()
     i = 0
